@@ -55,6 +55,7 @@ Definition mk_tag (mk : modk) : Z :=
   | MReduce => 1 | MScan => 2 | MFold => 3 | MRows => 4 | MEach => 5 | MInventory => 6
   | MTable => 7 | MTuples => 8 | MGroup => 9 | MPartition => 10 | MSpawn => 11 | MPool => 12
   | MRepeat => 13 | MStencil => 14 | MReduceContent => 15 | MRepeatWithInverse => 17 | MHandleSig => 20
+  | MUndoRows => 21 | MUndoInventory => 22
   | MReduceDepth d => 1000 + Z.of_nat d
   | _ => 0 end%Z.
 (** values popped / pushed by the modifier as a whole (run_prim.rs / algorithm/{zip,reduce,loops,table,groups}.rs) *)
@@ -72,6 +73,8 @@ Definition iter_ao (mk : modk) (sg : sig) : option (nat * nat) :=
   | MRepeat | MRepeatWithInverse => Some (1 + sa sg, if sa sg <? so sg then so sg - sa sg else so sg)
   | MStencil => Some (if sa sg <=? 1 then 2 else 1, so sg)
   | MReduceContent | MReduceDepth _ => Some (sa sg - so sg, so sg)
+  (* the undo halves of rows / inventory: the row count saved by the do half is popped first *)
+  | MUndoRows | MUndoInventory => Some (1 + sa sg, so sg)
   | _ => None end.
 
 (** Uiua::without_fill around one run *)
@@ -416,7 +419,8 @@ Section Exec.
             let vals := firstn k (stk s) in
             bind (ex f (set_stk s (skipn k (stk s)))) (fun s2 => Ok (set_stk s2 (vals ++ stk s2)))
         | (MReduce | MScan | MFold | MRows | MEach | MInventory | MTable | MTuples
-           | MGroup | MPartition | MStencil | MReduceContent | MReduceDepth _ | MHandleSig), [(sg, f)] =>
+           | MGroup | MPartition | MStencil | MReduceContent | MReduceDepth _ | MHandleSig
+           | MUndoRows | MUndoInventory), [(sg, f)] =>
             match iter_ao mk sg with
             | Some (na, no) => iter_exec (ex f) (mk_tag mk) na no (sa sg) (so sg) s
             | None => Unk end
